@@ -125,6 +125,7 @@ impl Proto for V5 {
                 p.pkid = *pkid;
                 client.try_ack(&p).is_ok()
             }
+            UReq::Disconnect => client.try_disconnect().is_ok(),
         }
     }
 
